@@ -87,6 +87,9 @@ Record dcase := { dc_p : partitioner; dc_md : meta; dc_msgs : list dmsg; dc_brok
 
 Definition is_writable (md : meta) (t : Z) : bool :=
   match md with None => false | Some l => existsb (Z.eqb t) (writable_parts l) end.
+(* a message handed to partition t reaches the broker iff t has a leader and its key can be encoded
+   (an Encode() error of the key fails the message later, in the broker producer) *)
+Definition encodable (x : dmsg) : bool := match dm_key x with KEncErr _ => false | _ => true end.
 
 (* thread the partitioner through the messages, feeding the observed partition back as the oracle *)
 Fixpoint with_oracles (p : partitioner) (md : meta) (ms : list dmsg) : list (Z * msg * Z) :=
@@ -104,18 +107,20 @@ Fixpoint find_msg (id : Z) (ms : list dmsg) : option dmsg :=
 Definition event_ok (md : meta) (ms : list dmsg) (e : devent) : bool :=
   match e with
   | HandOff t id => match find_msg id ms with
-                    | Some x => Bool.eqb (dm_succ x) (is_writable md t) && Z.eqb (dm_part x) t
+                    | Some x => Bool.eqb (dm_succ x) (is_writable md t && encodable x) && Z.eqb (dm_part x) t
                     | None => false end
   | ReturnError id _ => match find_msg id ms with
                         | Some x => negb (dm_succ x) && Z.eqb (dm_part x) (dm_mpart x)
                         | None => false end
   end.
 
-Fixpoint sent_of (md : meta) (evs : list devent) : list (Z * Z) :=
+Fixpoint sent_of (md : meta) (ms : list dmsg) (evs : list devent) : list (Z * Z) :=
   match evs with
   | [] => []
-  | HandOff t id :: r => if is_writable md t then (t, id) :: sent_of md r else sent_of md r
-  | _ :: r => sent_of md r
+  | HandOff t id :: r =>
+    if is_writable md t && match find_msg id ms with Some x => encodable x | None => false end
+    then (t, id) :: sent_of md ms r else sent_of md ms r
+  | _ :: r => sent_of md ms r
   end.
 
 Fixpoint insert2 (x : Z * Z) (l : list (Z * Z)) : list (Z * Z) :=
@@ -130,5 +135,5 @@ Definition ok_d (c : dcase) : bool :=
   let evs := dispatch_run (dc_p c) (with_oracles (dc_p c) (dc_md c) (dc_msgs c)) (dc_md c) in
   Nat.eqb (length evs) (length (dc_msgs c)) &&
   forallb (event_ok (dc_md c) (dc_msgs c)) evs &&
-  list_eqb z2_eqb (isort2 (sent_of (dc_md c) evs)) (isort2 (dc_broker c)).
+  list_eqb z2_eqb (isort2 (sent_of (dc_md c) (dc_msgs c) evs)) (isort2 (dc_broker c)).
 Definition mismatches_d := mismatches ok_d.
